@@ -9,6 +9,7 @@ import (
 	"strings"
 	"sync"
 	"time"
+	altmc "verif/harness/mc/alt/mc"
 
 	"github.com/element-of-surprise/coercion/plugins"
 	"github.com/element-of-surprise/coercion/workflow"
@@ -434,6 +435,8 @@ func (p *Plug) Execute(ctx context.Context, req any) (any, *plugins.Error) {
 		return nil, &plugins.Error{Message: "transient failure of " + path}
 	case WrongType:
 		return OtherResp{Bogus: path}, nil
+	case WrongNamed:
+		return altmc.Resp{Path: path, N: n}, nil
 	case PermWrap:
 		return nil, &plugins.Error{Message: "permanent failure of " + path, Permanent: true, Wrapped: &plugins.Error{Message: "cause (not flagged permanent)"}}
 	case RespPerm:
